@@ -2118,6 +2118,10 @@ impl<'a, 'b, W: Write> SerializeTupleVariant for TupleVariantSer<'a, 'b, W> {
 // Map / Struct serializers
 // ------------------------------------------------------------
 
+/// An implicit mapping key (`key: value`) must fit into 1024 characters, otherwise the parser does
+/// not recognize it as a key; longer keys need the explicit form (`? key`).
+const MAX_IMPLICIT_KEY_CHARS: usize = 1024;
+
 /// Serializer for maps and structs.
 ///
 /// Created by `YamlSerializer::serialize_map`/`serialize_struct`. Manages indentation
@@ -2153,6 +2157,9 @@ impl<'a, 'b, W: Write> SerializeMap for MapSer<'a, 'b, W> {
                 self.ser.out.write_str(", ")?;
             }
             let text = scalar_key_to_string(key, self.ser.yaml_12)?;
+            if text.chars().count() > MAX_IMPLICIT_KEY_CHARS {
+                self.ser.out.write_str("? ")?;
+            }
             self.ser.out.write_str(&text)?;
             self.ser.out.write_str(": ")?;
             self.ser.at_line_start = false;
@@ -2192,12 +2199,21 @@ impl<'a, 'b, W: Write> SerializeMap for MapSer<'a, 'b, W> {
                         self.ser.write_indent(self.depth)?;
                     }
                     self.entry_col = self.ser.out.col;
-                    self.ser.out.write_str(&text)?;
-                    // Defer the decision to put a space vs. newline until we see the value type.
-                    self.ser.out.write_str(":")?;
-                    self.ser.pending_space_after_colon = true;
-                    self.ser.at_line_start = false;
-                    self.last_key_complex = false;
+                    if text.chars().count() > MAX_IMPLICIT_KEY_CHARS {
+                        // Too long for an implicit key: write `? key` and let the value follow
+                        // on its own `: value` line, as for complex keys.
+                        self.ser.out.write_str("? ")?;
+                        self.ser.out.write_str(&text)?;
+                        self.ser.newline()?;
+                        self.last_key_complex = true;
+                    } else {
+                        self.ser.out.write_str(&text)?;
+                        // Defer the decision to put a space vs. newline until we see the value type.
+                        self.ser.out.write_str(":")?;
+                        self.ser.pending_space_after_colon = true;
+                        self.ser.at_line_start = false;
+                        self.last_key_complex = false;
+                    }
                 }
                 Err(Error::Unexpected { msg }) if msg == "non-scalar key" => {
                     self.ser.write_anchor_for_complex_node()?;
